@@ -77,10 +77,21 @@ def _p(path):
     return tuple(("i", el["i"]) if "i" in el else ("s", tuple(el["s"])) for el in path)
 
 
-def make_record(i, d, cls, S, I, base="", loc=False, with_restr=False, alt=None, uselib=False, resolver_for=None):
-    """run the real validator; returns (record, real_errors_plain).  Exceptions propagate to the caller."""
+def make_record(i, d, cls, S, I, base="", loc=False, with_restr=False, alt=None, uselib=False, resolver_for=None, hold=False):
+    """run the real validator; returns (record, real_errors_plain).  Exceptions propagate to the caller.
+    hold: while the judged report is gathered, the caller still holds a partially consumed report of the same instance from
+    the same validator object (reference-free schemas only: no resolver state is involved)"""
+    hold = hold and "$ref" not in repr(S)
+
     def run(schema):
         v = cls(schema, resolver=resolver_for(schema)) if resolver_for else cls(schema)
+        if hold:
+            held = v.iter_errors(I)
+            next(held, None)
+            try:
+                return list(v.iter_errors(I))
+            finally:
+                held.close()
         return list(v.iter_errors(I))
     errs = run(S)
     rec = {"id": i, "d": d, "S": enc(S), "I": enc(I), "base": enc_str(base), "uselib": uselib, "more": [], "raised": "none",
